@@ -59,10 +59,22 @@ def random_steps(rng, n, multi):
         if rng.random() < 0.5:
             return [("post", "+".join(seq))]
         return [("post", x) for x in seq]
+    def sel_motif():
+        # the --multi limit against what is already selected: mark a few of the top results, then select-all / toggle-all
+        seq = ["change-multi(%d)" % rng.choice([2, 3, 5]), "clear-query", "first"]
+        seq += [rng.choice(["toggle+down", "down+toggle", "toggle", "down", "toggle-down"]) for _ in range(rng.randint(1, 3))]
+        seq += [rng.choice(["select-all", "select-all", "toggle-all"]), rng.choice(["toggle", "toggle-all", "deselect-all", "select-all", "down+toggle"])]
+        return [("post", x) for x in seq]
+
+    def page_motif():
+        return [("post", x) for x in rng.sample(["page-down", "page-up", "half-page-down", "half-page-up", "down", "up", "last", "first"], 5)]
     for _ in range(n):
         r = rng.random()
         if r < 0.12:
             steps.extend(motif())
+            continue
+        if r < 0.19:
+            steps.extend(sel_motif() if (multi is not None and rng.random() < 0.7) else page_motif())
             continue
         if r < 0.5:
             steps.append(("post", one()))
@@ -155,14 +167,14 @@ def run(ctx):
                 steps.append(("type", chars.text(st["arg"])))
             else:
                 steps.append(("post", sessions.fmt_action(st["act"], st["arg"])))
-        jobs.append((cfg, items, steps, rng.choice([30, 50, 80]), rng.choice([5, 6, 8, 12, 24])))
+        jobs.append((cfg, items, steps, rng.choice([30, 50, 80]), rng.choice([3, 5, 6, 8, 12, 24])))
     nrand = ctx.pick(14, 700)
     for _ in range(nrand):
         cfg = make_cfg(rng)
         k = rng.choice([0, 1, 2, 5, 9, 14, 25, 40])
         items = [rng.choice(ITEM_POOL) for _ in range(k)]
         jobs.append((cfg, items, random_steps(rng, rng.randint(15, 40), cfg.multi), rng.choice([30, 50, 80]),
-                     rng.choice([4, 5, 6, 8, 12, 24])))
+                     rng.choice([3, 3, 4, 5, 6, 8, 12, 24])))
     if ctx.replay:
         rp = json.load(open(ctx.replay))["case"]
         c = rp["session"]
